@@ -103,7 +103,7 @@ package diam
 //@   ensures [C03 assumed] inspectable_group: err == nil && typeis(a.Data, *GroupedAVP) ==> dprintable(a.Data)
 //@   ensures [C04] cursor: err == nil && !typeis(a.Data, *GroupedAVP) ==> avplen(a) == pad4s(a.Length)
 //@   ensures [C01 C04] payload: err == nil && !typeis(a.Data, *GroupedAVP) ==> forall i int :: 0 <= i && i < a.Length - hdrlen(a.Flags) ==> dbyte(a.Data, i) == data[hdrlen(a.Flags) + i]
-//@   ensures [C06] private: err == nil ==> !viewsInto(a.Data, data)
+//@   ensures [C06] private: err == nil ==> !viewsInto(a.Data, data) && !holdsview(a, data)
 //@   # C01 "read back with the same dictionary": at every nesting level an AVP is resolved under the application and the
 //@   # dictionary of the message it belongs to, by the code and vendor id found on the wire, and decoded as the type the
 //@   # dictionary gives for it
@@ -127,7 +127,7 @@ package diam
 //@   ensures [C03 assumed] inspectable_group: err == nil && typeis(a.Data, *GroupedAVP) ==> dprintable(a.Data)
 //@   ensures [C04] cursor: err == nil && !typeis(a.Data, *GroupedAVP) ==> avplen(a) == pad4s(a.Length)
 //@   ensures [C01 C04] payload: err == nil && !typeis(a.Data, *GroupedAVP) ==> forall i int :: 0 <= i && i < a.Length - hdrlen(a.Flags) ==> dbyte(a.Data, i) == data[hdrlen(a.Flags) + i]
-//@   ensures [C06] private: err == nil ==> !viewsInto(a.Data, data)
+//@   ensures [C06] private: err == nil ==> !viewsInto(a.Data, data) && !holdsview(a, data)
 //@   atcall DecodeFromBytes: [C01] same_application_and_dictionary: ARG2 == application && ARG3 == dictionary
 //@ end
 //@
@@ -138,6 +138,8 @@ package diam
 //@   modifies
 //@   ensures nonnil: err == nil ==> g != nil && fresh(g)
 //@   ensures [C04] framing: err == nil ==> len(g.AVP) == framecount(data, pad4s(len(data)))
+//@   # C06: whatever byte-slice fields a GroupedAVP has (none today), none of them is a view of the payload it was decoded from
+//@   ensures [C06] the_group_keeps_no_view_of_its_payload: err == nil ==> !holdsview(g, data)
 //@   # ASSUMED, not discharged: the members were each returned by DecodeAVP, whose postcondition (discharged) says the
 //@   # member is inspectable; that the list of them is (dtree) is the induction over the loop, whose step needs a frame
 //@   # rule for append on a growing list of callee-allocated subtrees that the generator does not have
